@@ -42,6 +42,7 @@ ScaleSet(S, k) == {<<RMul(q[1], R(k)), RMul(q[2], R(k))>> : q \in S}
 Scaled(w, k) == LET a == WalkAll(Poly(<<2, 1>>, w, 1)) IN [j \in 1..9 |-> ScaleSet(a[j], k)]
 Edit(name, w) == /\ hist' = Append(hist, <<name, w>>) /\ arg' = w /\ exp' = Scaled(w, Pow2Of(hist', 1))
 Next == /\ kind = "hist" /\ Len(hist) < MaxOps /\ UNCHANGED kind
+        /\ (IF hist = <<>> THEN TRUE ELSE hist[Len(hist)][1] # "reverse")
         /\ \/ (hist' = Append(hist, <<"query", arg>>) /\ UNCHANGED <<arg, exp>>)
            \/ (hist' = Append(hist, <<"length", arg>>) /\ UNCHANGED <<arg, exp>>)
            \/ \E d \in {2, 3, 4} : Len(arg) < 4 /\ Edit("append", Append(arg, d))
@@ -49,6 +50,9 @@ Next == /\ kind = "hist" /\ Len(hist) < MaxOps /\ UNCHANGED kind
            \/ \E d \in {2, 5} : Edit("replace_last", Append(SubSeq(arg, 1, Len(arg) - 1), d))
            \/ \E d \in {3, 6} : Len(arg) < 4 /\ Edit("extend_str", Append(arg, d))
            \/ (Pow2Of(hist, 1) < 4 /\ Edit("scale2", arg))
+           \* reversing the (single sub-path, move-free) path: the walk runs the other way; kept last in a history
+           \/ (\A i \in 1..Len(arg) : arg[i] # 0) /\ hist' = Append(hist, <<"reverse", arg>>) /\ arg' = arg
+                /\ exp' = [j \in 1..9 |-> exp[10 - j]]
 \* simulation mode: long query/edit histories
 InitHist == kind = "hist" /\ arg = <<1>> /\ hist = <<>> /\ exp = WalkAll(Poly(<<2, 1>>, <<1>>, 1))
 Emit == Len(hist) >= 5 => PrintT(<<"CASE", arg, exp, hist>>)
